@@ -148,9 +148,15 @@ fn drive(sim: &Sim) -> R2 {
     let with_echo = sim.chance(1, 2);
     let under = Arc::new(SimUnderlay { st: Mutex::new(UnderlayState { inbox: VecDeque::new(), rx_waker: None, sent: Vec::new(), send_mode: SendMode::Ok, spurious: false, send_attempts: 0 }) });
     let rec = Arc::new(Recorder { seen: Mutex::new(Vec::new()) });
-    let receivers: Vec<Arc<dyn ScmpErrorReceiver>> = vec![rec.clone()];
+    // further application-side receivers of the same stack (held weakly by the handler): some are dropped during the run
+    let n_extra = sim.idx(3);
+    let mut extras: Vec<Option<Arc<Recorder>>> = (0..n_extra).map(|_| Some(Arc::new(Recorder { seen: Mutex::new(Vec::new()) }))).collect();
+    let rec_pos = sim.idx(n_extra + 1);
+    let mut receivers: Vec<Arc<dyn ScmpErrorReceiver>> = extras.iter().flatten().map(|e| e.clone() as Arc<dyn ScmpErrorReceiver>).collect();
+    receivers.insert(rec_pos, rec.clone());
     let local = ScionSocketIpAddr::new(ia(0x20), IpAddr::V4(Ipv4Addr::new(10, 0, 0, 2)), 4000);
     let sock = Arc::new(path_unaware_udp_socket(under.clone(), local, &receivers, with_echo));
+    drop(receivers);
     sim.log(format!("sock scenario echo-handler={with_echo}"));
     // packets come from a remote host over a two-hop path
     let remote: sciparse::address::addr::ScionAddr = ScionIpAddr::new(ia(0x10), IpAddr::V4(Ipv4Addr::new(10, 0, 0, 1))).into();
@@ -181,7 +187,18 @@ fn drive(sim: &Sim) -> R2 {
     let enc = |p: ScionRawPacket| p.try_encode_to_owned_view().ok().map(|v| v.as_slice().to_vec());
     let n_ops = 5 + sim.idx(30);
     for _ in 0..n_ops {
-        let op = sim.draw(14);
+        let op = sim.draw(15);
+        if op == 14 {
+            // an application component that listened for SCMP errors goes away
+            let alive: Vec<usize> = (0..extras.len()).filter(|k| extras[*k].is_some()).collect();
+            if !alive.is_empty() {
+                let k = alive[sim.idx(alive.len())];
+                extras[k] = None;
+                sim.fault("scmp-receiver-dropped");
+                sim.log(format!("receiver #{k} dropped"));
+            }
+            continue;
+        }
         let mut inject: Option<Vec<u8>> = None;
         match op {
             0..=3 => {
@@ -294,6 +311,14 @@ fn drive(sim: &Sim) -> R2 {
     let seen = rec.seen.lock().unwrap().clone();
     if seen != expected_errors {
         return Err(("C14/socket-scmp-errors-not-reported-exactly-once".into(), format!("SCMP errors injected {expected_errors:?}, reported to the registered receiver {seen:?}")));
+    }
+    for (k, e) in extras.iter().enumerate() {
+        if let Some(e) = e {
+            let seen = e.seen.lock().unwrap().clone();
+            if seen != expected_errors {
+                return Err(("C14/socket-scmp-errors-not-reported-exactly-once".into(), format!("SCMP errors injected {expected_errors:?}, reported to live receiver #{k} {seen:?}")));
+            }
+        }
     }
     if !expected_errors.is_empty() {
         sim.probe("socket-errors-reported");
